@@ -158,3 +158,159 @@ example : (run { blob := [1, 2, 3, 4, 5, 6], oob := [9] } { cs := 2, keep := 2 }
   decide
 
 end DclabModel.C19
+
+namespace DclabModel.C19
+open DclabModel.Http
+
+/-! ## History-level statements about the issued requests and the pinned first chunk -/
+
+/-- every download issued so far is the range of one whole chunk -/
+def ReqsOK (sv : Server) (cfg : Cfg) (st : St) : Prop :=
+  ∀ r ∈ st.reqs, ∃ j, r = (j * cfg.cs, min ((j + 1) * cfg.cs) sv.len)
+
+theorem readLoop_reqs (sv : Server) (cfg : Cfg) (stop : Nat) :
+    ∀ (count idx pos toread : Nat) (st : St) (data : Bytes), ReqsOK sv cfg st →
+      ReqsOK sv cfg (readLoop sv cfg stop count idx pos toread st data).1 := by
+  intro count
+  induction count with
+  | zero => intro idx pos toread st data h; simpa [readLoop] using h
+  | succ c ih =>
+    intro idx pos toread st data h
+    have hg : ReqsOK sv cfg (getChunk sv cfg st idx).1 := requests_are_chunks sv cfg st idx h
+    unfold readLoop
+    cases hgc : getChunk sv cfg st idx with
+    | mk st' oc =>
+      rw [hgc] at hg
+      cases oc with
+      | none => exact hg
+      | some chunk =>
+        simp only
+        split
+        · exact hg
+        · split
+          · exact ih _ _ _ _ _ hg
+          · exact ih _ _ _ _ _ hg
+
+theorem step_reqs (sv : Server) (cfg : Cfg) (st : St) (op : Op) (h : ReqsOK sv cfg st) :
+    ReqsOK sv cfg (step sv cfg st op).1 := by
+  cases op with
+  | tell => exact h
+  | seek off w =>
+    have e : (step sv cfg st (.seek off w)).1.reqs = st.reqs := by
+      simp only [step]
+      split
+      · rfl
+      · split
+        · rfl
+        · split <;> rfl
+    intro r hr
+    rw [e] at hr
+    exact h r hr
+  | read n =>
+    simp only [step]
+    split
+    · exact h
+    · have hr := readLoop_reqs sv cfg (st.pos.toNat + n.toNat)
+        ((st.pos.toNat + n.toNat) / cfg.cs + 1 - st.pos.toNat / cfg.cs) (st.pos.toNat / cfg.cs)
+        st.pos.toNat (st.pos.toNat + n.toNat - st.pos.toNat) st [] h
+      simp only [readRange]
+      cases hrl : readLoop sv cfg (st.pos.toNat + n.toNat)
+        ((st.pos.toNat + n.toNat) / cfg.cs + 1 - st.pos.toNat / cfg.cs) (st.pos.toNat / cfg.cs)
+        st.pos.toNat (st.pos.toNat + n.toNat - st.pos.toNat) st [] with
+      | mk st' od =>
+        rw [hrl] at hr
+        cases od with
+        | none => exact hr
+        | some d => exact hr
+
+/-- **For every history whatsoever** (valid or not, any capacity, any chunk size): the file
+object only ever asks the server for whole-chunk ranges `bytes=j·cs-(min((j+1)·cs,len)-1)`. -/
+theorem history_requests_are_chunks (sv : Server) (cfg : Cfg) :
+    ∀ (ops : List Op) (st : St), ReqsOK sv cfg st → ReqsOK sv cfg (run sv cfg st ops).1 := by
+  intro ops
+  induction ops with
+  | nil => intro st h; exact h
+  | cons op ops ih =>
+    intro st h
+    simp only [run]
+    exact ih _ (step_reqs sv cfg st op h)
+
+theorem fresh_requests_are_chunks (sv : Server) (cfg : Cfg) (ops : List Op) :
+    ReqsOK sv cfg (run sv cfg St.init ops).1 :=
+  history_requests_are_chunks sv cfg ops St.init (by intro r hr; cases hr)
+
+end DclabModel.C19
+
+namespace DclabModel.C19
+open DclabModel.Http
+
+def HasZero (st : St) : Prop := 0 ∈ st.cache.map Prod.fst
+
+theorem readLoop_keeps_zero (sv : Server) (cfg : Cfg) (stop : Nat) :
+    ∀ (count idx pos toread : Nat) (st : St) (data : Bytes), HasZero st →
+      HasZero (readLoop sv cfg stop count idx pos toread st data).1 := by
+  intro count
+  induction count with
+  | zero => intro idx pos toread st data h; simpa [readLoop] using h
+  | succ c ih =>
+    intro idx pos toread st data h
+    have hg : HasZero (getChunk sv cfg st idx).1 := chunk0_pinned sv cfg st idx h
+    unfold readLoop
+    cases hgc : getChunk sv cfg st idx with
+    | mk st' oc =>
+      rw [hgc] at hg
+      cases oc with
+      | none => exact hg
+      | some chunk =>
+        simp only
+        split
+        · exact hg
+        · split
+          · exact ih _ _ _ _ _ hg
+          · exact ih _ _ _ _ _ hg
+
+theorem step_keeps_zero (sv : Server) (cfg : Cfg) (st : St) (op : Op) (h : HasZero st) :
+    HasZero (step sv cfg st op).1 := by
+  cases op with
+  | tell => exact h
+  | seek off w =>
+    have e : (step sv cfg st (.seek off w)).1.cache = st.cache := by
+      simp only [step]
+      split
+      · rfl
+      · split
+        · rfl
+        · split <;> rfl
+    unfold HasZero
+    rw [e]
+    exact h
+  | read n =>
+    simp only [step]
+    split
+    · exact h
+    · have hr := readLoop_keeps_zero sv cfg (st.pos.toNat + n.toNat)
+        ((st.pos.toNat + n.toNat) / cfg.cs + 1 - st.pos.toNat / cfg.cs) (st.pos.toNat / cfg.cs)
+        st.pos.toNat (st.pos.toNat + n.toNat - st.pos.toNat) st [] h
+      simp only [readRange]
+      cases hrl : readLoop sv cfg (st.pos.toNat + n.toNat)
+        ((st.pos.toNat + n.toNat) / cfg.cs + 1 - st.pos.toNat / cfg.cs) (st.pos.toNat / cfg.cs)
+        st.pos.toNat (st.pos.toNat + n.toNat - st.pos.toNat) st [] with
+      | mk st' od =>
+        rw [hrl] at hr
+        cases od with
+        | none => exact hr
+        | some d => exact hr
+
+/-- **For every history** (any capacity, any chunk size): once the first chunk is cached it is
+never evicted again — the HDF5 superblock stays in memory, as the code comment promises. -/
+theorem history_chunk0_pinned (sv : Server) (cfg : Cfg) :
+    ∀ (ops : List Op) (st : St), HasZero st → HasZero (run sv cfg st ops).1 := by
+  intro ops
+  induction ops with
+  | nil => intro st h; exact h
+  | cons op ops ih =>
+    intro st h
+    simp only [run]
+    exact ih _ (step_keeps_zero sv cfg st op h)
+
+end DclabModel.C19
